@@ -258,8 +258,51 @@ func ruleR7_1(r *Run) {
 			}
 		}
 	}
+	// equally complete since 39e2dcd: the branch-head index (repoT.branchHeads() has one entry per branch in
+	// use: its last node; the live cache branchToUUID follows every change of the DAG's shape, R3.13).  A
+	// membership test of the requested name in either, whose "found" edge is an error exit, decides the same.
+	for _, b := range f.Blocks {
+		ifi, ok := b.Instrs[len(b.Instrs)-1].(*ssa.If)
+		if !ok {
+			continue
+		}
+		ex, ok := ifi.Cond.(*ssa.Extract)
+		if !ok || ex.Index != 1 {
+			continue
+		}
+		lk, ok := ex.Tuple.(*ssa.Lookup)
+		if !ok || !lk.CommaOk {
+			continue
+		}
+		index := false
+		if c, ok := lk.X.(*ssa.Call); ok && methodNameOf(c) == "branchHeads" {
+			index = true
+		}
+		if isFieldLoad(lk.X, "repoManager", "branchToUUID") {
+			index = true
+		}
+		keyed := false
+		for d := range dataDeps(lk.Index) {
+			if branchParam != nil && d == ssa.Value(branchParam) {
+				keyed = true
+			}
+		}
+		if !index || !keyed {
+			continue
+		}
+		cur := b.Succs[0]
+		for hops := 0; hops < 4; hops++ {
+			if ret, ok := cur.Instrs[len(cur.Instrs)-1].(*ssa.Return); ok && isErrorExit(ret) {
+				scanAll = true
+			}
+			if len(cur.Succs) != 1 {
+				break
+			}
+			cur = cur.Succs[0]
+		}
+	}
 	r.check(scanAll, "repoManager.newVersion:branch-name-unique-in-dag",
-		"a new branch name is compared with the branch of every node of the DAG; a match is an error",
+		"a new branch name is compared with the branch of every node of the DAG (or looked up in the complete branch-head index); a match is an error",
 		"newVersion no longer scans every node of the DAG for an existing branch of the requested name (a cache or partial index can be stale after restart): one branch name could get two chains", w.fpos(f))
 	r.check(scanSisters, "repoManager.newVersion:one-child-per-branch",
 		"when extending the parent's own branch every existing child is compared; a child on that branch is an error",
